@@ -336,6 +336,39 @@ def run(ctx):
                     continue
                 if s2[1] == base_stream:
                     ctx.report('property', f'"{ename}" of geometry variable {gname} does not change what is hashed: same key', ecase)
+            # a value edit below single precision on a variable that still carries a float32 on-disk dtype in its
+            # encoding (file stored as float32, double precision values assigned back by the application)
+            def with_f32_encoding(x, delta):
+                x = x.copy(deep=True)
+                a = x[gname]
+                v = numpy.asarray(a.values, dtype='f8').copy()
+                flat = v.reshape(-1)
+                k = next((i for i, y in enumerate(flat) if y == y), 0)
+                flat[k] = flat[k] + delta
+                enc = dict(a.encoding)
+                if gname in x.coords:
+                    x = x.assign_coords({gname: (a.dims, v, a.attrs)})
+                else:
+                    x[gname] = (a.dims, v, a.attrs)
+                x[gname].encoding.update(enc)
+                x[gname].encoding['dtype'] = numpy.dtype('float32')
+                return x
+            if ds[gname].dtype.kind == 'f':
+                with warnings.catch_warnings():
+                    warnings.simplefilter('ignore')
+                    ea, eb = attempt(with_f32_encoding, ds, 0.0), attempt(with_f32_encoding, ds, 2.0 ** -30)
+                if ea[0] == 'ok' and eb[0] == 'ok':
+                    sa, sb = attempt(stream_of, ea[1]), attempt(stream_of, eb[1])
+                    ecase = dict(case, edit='value edit of 2^-30 under a float32 encoding', variable=gname, kind='geometry_edit')
+                    ctx.case((label, from_file, 'f32-encoding'), True)
+                    ctx.count('edit:value below float32 resolution, float32 encoding')
+                    if sa[0] == 'ok' and sb[0] == 'ok':
+                        if sa[1] == sb[1]:
+                            ctx.report('property', f'{gname} changed by 2^-30 (double precision values, float32 dtype in the '
+                                       f'encoding) and the hashed bytes are the same: same key', ecase)
+                        elif sa[1] != py_stream(ea[1], names):
+                            ctx.report('property', 'with a float32 dtype in the encoding the hashed bytes are not the documented '
+                                       'function of the geometry variables', ecase)
             # the convention
             base_cls = type(ds.ems)
             sub = type('Sub' + base_cls.__name__, (base_cls,), {})
